@@ -1,6 +1,13 @@
 package vm
 
-import "regexp"
+import (
+	"regexp"
+	"time"
+)
 
 // vSetMatch makes FindStringSubmatch on re return result (nil = no match).
 func vSetMatch(re *regexp.Regexp, result []string)
+
+// vmNow is the wall clock as the code under test sees it (the engine's clock
+// model; natively the rewritten call sites' clock).
+func vmNow() time.Time { return time.Now() }
